@@ -586,6 +586,29 @@ Section TilePaths.
   Qed.
 End TilePaths.
 
+Lemma level_name_safe layout level n : level_name layout level = Some n -> safe n.
+Proof.
+  unfold level_name. intro H.
+  destruct (String.eqb layout "tc" || String.eqb layout "mp")%bool.
+  - injection H as <-. rewrite <- (app_nil_r (pad 10 2 level)). apply safe_num; [padn|padd].
+  - destruct (String.eqb layout "tms").
+    + injection H as <-. rewrite <- (app_nil_r (dec_str level)). apply safe_num; [padn|padd].
+    + destruct (String.eqb layout "arcgis"); [|discriminate]. injection H as <-.
+      apply safe_head; [lia|lia|]. apply no47_digitish. padd.
+Qed.
+
+Lemma file_level_location_resolves lower cwd layout root dm level p :
+  file_level_location lower layout root dm level = Some p ->
+  exists n, safe n /\ resolve cwd p = resolve cwd root ++ dims_components lower dm ++ [n].
+Proof.
+  unfold file_level_location. destruct (level_name layout level) as [n|] eqn:E; [|discriminate].
+  intro H. assert (Hp : p = posix_join root [dimensions_part lower dm; n]) by (injection H; auto). clear H. subst p.
+  exists n. split; [exact (level_name_safe _ _ _ E)|].
+  erewrite (resolve_join_segs cwd root);
+    [|constructor; [apply dims_seg|]; constructor; [apply seg_safe; exact (level_name_safe _ _ _ E)|constructor]].
+  cbn [List.concat app]. reflexivity.
+Qed.
+
 (* every layout of location_funcs: the file is below root, and all intermediate names are safe *)
 Lemma tile_paths_confined_all lower cwd root dm x y z ext layout f :
   ext_ok ext -> location_funcs layout = Some f ->
